@@ -8,6 +8,7 @@ import (
 	"strings"
 	"unicode/utf8"
 
+	jd1 "github.com/josephburnett/jd/lib"
 	jd "github.com/josephburnett/jd/v2"
 )
 
@@ -332,6 +333,23 @@ func propC15(run *Run, n int) {
 		out := addC15Case(run, ch.o, ch.label, a, b, hist)
 		lines = append(lines, out)
 	}
+	// the same history on the v1 library (package lib): Diff, Equals, Render, RenderPatch, RenderMerge, Json
+	v1c := v1Choices()
+	for i := 0; i < n/4; i++ {
+		ch := v1c[r.Intn(len(v1c))]
+		if !ch.inDomain {
+			continue
+		}
+		cfg := ch.cfg()
+		cfg.MaxKeys = 5
+		cfg.ScalarBias = 4
+		a, b := cfg.Pair(r)
+		hist := []int{}
+		for k := 0; k < 4+r.Intn(4); k++ {
+			hist = append(hist, r.Intn(len(c15V1Calls)))
+		}
+		lines = append(lines, addC15V1Case(run, ch.m, ch.label, a, b, hist))
+	}
 	// merge reader determinism: hunks read from a merge patch in every process run
 	for i := 0; i < n/4; i++ {
 		cfg := DefaultCfg()
@@ -439,14 +457,14 @@ func addC15Case(run *Run, o OptSet, label string, a, b *Val, hist []int) string 
 				out = an.Yaml() + "|" + bn.Yaml()
 			}
 			log = append(log, name+"="+out)
-			if prev, ok := first[name]; ok && prev != out {
+			if prev, ok := first[name]; ok && prev != out && verdict == "ok" {
 				verdict = "fail " + name + " returned different outputs on two calls with the same arguments"
 			}
 			first[name] = out
-			if jd.VerifEncodeNode(an) != aw || jd.VerifEncodeNode(bn) != bw {
+			if (jd.VerifEncodeNode(an) != aw || jd.VerifEncodeNode(bn) != bw) && verdict == "ok" {
 				verdict = "fail " + name + " changed a document it was given"
 			}
-			if jd.VerifEncodeDiff(d) != dw0 {
+			if jd.VerifEncodeDiff(d) != dw0 && verdict == "ok" {
 				verdict = "fail " + name + " changed the diff it was given"
 			}
 		}
@@ -474,7 +492,95 @@ func addC15Case(run *Run, o OptSet, label string, a, b *Val, hist []int) string 
 	return strings.Join(log, "\n") + "\n" + patchOut
 }
 
+var c15V1Calls = []string{"Diff", "Equals", "Render", "RenderPatch", "RenderMerge", "Json"}
+
+// addC15V1Case: the history of read-only calls on the SAME Go values of the v1 library
+func addC15V1Case(run *Run, m V1Meta, label string, a, b *Val, hist []int) string {
+	aw, bw := a.Wire(), b.Wire()
+	hs := []string{}
+	for _, h := range hist {
+		hs = append(hs, fmt.Sprint(h))
+	}
+	c := Case{Recipe: Recipe{"c15v1", []string{m.Wire(), aw, bw, strings.Join(hs, ",")}}, Desc: map[string]string{"library": "v1", "metadata": m.Name(), "a": a.Human(), "b": b.Human()}}
+	c.Sig = "v1|" + m.Wire() + "|" + aw + "|" + bw + "|" + strings.Join(hs, ",")
+	var log []string
+	verdict := "ok"
+	var dw0, patchOut string
+	res, _ := safely(func() string {
+		an, bn := mustNodeV1(aw), mustNodeV1(bw)
+		md := m.Go()
+		d := an.Diff(bn, md...)
+		dw0 = jd1.VerifEncodeDiff(d)
+		first := map[string]string{}
+		names := []string{}
+		for _, h := range hist {
+			name := c15V1Calls[h]
+			names = append(names, name)
+			var out string
+			switch name {
+			case "Diff":
+				out = jd1.VerifEncodeDiff(an.Diff(bn, md...))
+			case "Equals":
+				out = boolWire(an.Equals(bn, md...))
+			case "Render":
+				out = d.Render()
+			case "RenderPatch":
+				s, err := d.RenderPatch()
+				out = encOutcomeText(s, err)
+			case "RenderMerge":
+				s, err := d.RenderMerge()
+				out = encOutcomeText(s, err)
+			case "Json":
+				out = an.Json() + "|" + bn.Json()
+			}
+			log = append(log, name+"="+out)
+			if prev, ok := first[name]; ok && prev != out && verdict == "ok" {
+				verdict = "fail v1 " + name + " returned different outputs on two calls with the same arguments"
+			}
+			first[name] = out
+			if (jd1.VerifEncodeNode(an) != aw || jd1.VerifEncodeNode(bn) != bw) && verdict == "ok" {
+				verdict = "fail v1 " + name + " changed a document it was given"
+			}
+			if jd1.VerifEncodeDiff(d) != dw0 && verdict == "ok" {
+				verdict = "fail v1 " + name + " changed the diff it was given"
+			}
+		}
+		c.Desc["history"] = strings.Join(names, ",")
+		r, err := an.Patch(d)
+		patchOut = encOutcomeNodeV1(r, err)
+		return "done"
+	})
+	if res == "panic" {
+		verdict = "fail panic during the v1 history"
+	}
+	c.Nontrivial = dw0 != "" && dw0 != "< >"
+	fresh := implV1Patch(aw, dw0)
+	if verdict == "ok" && patchOut != fresh {
+		verdict = "fail v1: after the read-only calls the diff patches differently (" + patchOut + ") than a fresh copy (" + fresh + ")"
+	}
+	c.Desc["impl_diff"] = dw0
+	c.Probes = append(c.Probes,
+		Probe{Kind: "direct", Rel: "C15 (v1 library) read-only calls leave documents and diff unchanged, repeat identically, and the diff still patches as a fresh copy does", Want: verdict},
+	)
+	run.Count("v1-opts:" + label)
+	run.Add(c)
+	return strings.Join(log, "\n") + "\n" + patchOut
+}
+
 func init() {
+	recipes["c15v1"] = func(run *Run, a []string) {
+		hist := []int{}
+		for _, s := range strings.Split(a[3], ",") {
+			var v int
+			fmt.Sscan(s, &v)
+			hist = append(hist, v)
+		}
+		m, err := ParseV1Meta(a[0])
+		if err != nil {
+			panic(err)
+		}
+		addC15V1Case(run, m, "corpus", mustVal(a[1]), mustVal(a[2]), hist)
+	}
 	props["C13"] = propC13
 	props["C15"] = propC15
 	quickN["C13"] = 4000
